@@ -12,7 +12,7 @@ A = {
     'A-SIGMA': 'A-IND/A-SIGMA: sums over range(N) are canonical prefix-sum functions with ground instances of S(k)=0 for k<=0 and S(k)=S(k-1)+delta(k-1); the induction schema is trusted',
     'A-READ': 'A-READ: a read of i[k]/v[k] returns a value constrained only by the declared type of the input/line (callee contract), never by the callee body',
     'A-ORACLE': 'A-ORACLE: transcribed official values / frozen oracle tables under /verif/contracts are correct (each entry cited)',
-    'A-CFG': 'A-CFG: configparser.ConfigParser keyed access is a function of the parsed map; set-then-get returns the string; write-then-read_file returns the map',
+    'A-CFG': 'A-CFG: configparser.ConfigParser keyed access is a function of the parsed map (sections with own options plus the [DEFAULT] options that apply to every existing section - explicit contract in pyvc/props/store_units.py); set-then-get returns the string; write-then-read_file returns the map; option names are lower-case (C17), no % interpolation, no inline comments',
     'A-BAG': 'A-BAG: order-irrelevant lists are modelled as multisets (pop removes an arbitrary present element)',
     'A-PURE': 'A-PURE: line definitions are pure sequential readers of (inputs, values)',
     'A-GEN': 'A-GEN/A-ALIAS: the tracker generator is drained atomically at its call sites; internal waiter lists escape only to read-only uses',
